@@ -2,7 +2,7 @@
 DESIGN.md section 4, C02."""
 from checks import c13_saveread as c13
 from checks import c14_overtime as c14
-from checks.c01_cache import designed_histories
+from checks.c01_cache import designed_histories, operand_histories
 from harness import cachemachine as CM
 from harness import selftest as _st
 from harness.common import Sub
@@ -76,7 +76,8 @@ def test_saveread_args(case, note):
 def subchecks(tier):
     q = tier == "quick"
     dh = [dict(h, cfg=dict(h["cfg"], readonly=(i % 2 == 0)))
-          for i, h in enumerate(designed_histories())]
+          for i, h in enumerate(designed_histories()
+                                + operand_histories())]
     return [
         Sub("history", None, test, 64 if q else 2500, kind="machine",
             machine=factory, steps=30, shards=8 if q else 16, max_rounds=3, shrink_quick=False,
